@@ -89,6 +89,7 @@ pub fn replay_case(case: &Case, path: &str, timeout: Duration) -> Replay {
             match st.code() {
                 Some(1) => Replay::Reproduced(out.lines().find(|l| l.starts_with("REPRODUCED")).unwrap_or("REPRODUCED").to_string()),
                 Some(0) => Replay::NotReproduced(out.lines().find(|l| l.starts_with("NOT-REPRODUCED")).unwrap_or("").to_string()),
+                Some(77) => Replay::Reproduced("native run faulted on a guard page: access outside the owned allocation".to_string()),
                 Some(101) => Replay::Reproduced(format!("native run panicked: {}", err.lines().find(|l| l.contains("panicked")).unwrap_or("").trim())),
                 other => Replay::Error(format!("replay exit {:?}: {} {}", other, out.trim(), err.trim())),
             }
